@@ -354,8 +354,22 @@ func judge(n *node, out *outcome) *verdict {
 	if need < sc.Initial {
 		need = 0 // a chain of one or two blocks: nothing has to be applied before the hand-over
 	}
+	// v1 decides "caught up" inside its FSM, which takes statuses from a queue: a status that has been delivered need
+	// not have been counted yet when the FSM hands over on the strength of an earlier, shorter one. Only when the very
+	// first status of the run came from an honest full peer is it certain (FIFO) that the tip was known.
+	firstStatusFromFull := true
+	if sc.Reactor == "v1" {
+		for _, dl := range n.deliveries {
+			if strings.HasPrefix(dl.Kind, "status[") {
+				firstStatusFromFull = dl.Role == "honest"
+				break
+			}
+		}
+	}
 	if top < need {
-		if n.handoverHonest {
+		if n.handoverHonest && !firstStatusFromFull {
+			v.classes = append(v.classes, "early-handover:v1-status-not-yet-counted")
+		} else if n.handoverHonest {
 			bad("handed over to consensus at height %d although an honest peer with tip %d was connected", top, n.tip)
 		} else {
 			v.classes = append(v.classes, "early-handover:no-honest-peer-connected")
@@ -899,6 +913,21 @@ func honestOnly(sc *scenario, reactor string) *scenario {
 			}
 		}
 		peers = append(peers, p)
+	}
+	// an honest full peer connects first and announces itself at once; everybody else joins a little later, so the
+	// FSM knows the tip before it can consider itself caught up with a shorter peer
+	for i := range peers {
+		if peers[i].Role == "honest" {
+			peers[0], peers[i] = peers[i], peers[0]
+			break
+		}
+	}
+	for i := range peers {
+		if i == 0 {
+			peers[i].JoinAt, peers[i].StatusDelay = 0, 0
+		} else if peers[i].JoinAt < 10 {
+			peers[i].JoinAt = 10
+		}
 	}
 	sc.Peers = peers
 	return sc
